@@ -40,6 +40,10 @@ pub enum FaultKind {
     /// (load-configuration) two replies bearing the request's message-id: first one with an
     /// rpc-error of severity error, then a positive one
     ErrorReplyThenSecondPositiveReply,
+    /// (load-configuration) ONE frame with two <rpc-reply> elements: the first bears the request's
+    /// id and an rpc-error, the second is positive and bears the same id / another id
+    ErrorRootThenPositiveRootSameId,
+    ErrorRootThenPositiveRootOtherId,
 }
 
 impl FaultKind {
@@ -60,6 +64,8 @@ impl FaultKind {
             FaultKind::ForeignError => "junos-xnm-error",
             FaultKind::HoldOk => "ok-held-back-behind-the-next-reply",
             FaultKind::ErrorReplyThenSecondPositiveReply => "error-reply-then-second-positive-reply",
+            FaultKind::ErrorRootThenPositiveRootSameId => "error-root-then-positive-root-in-one-frame(same-id)",
+            FaultKind::ErrorRootThenPositiveRootOtherId => "error-root-then-positive-root-in-one-frame(other-id)",
         }
     }
     /// does this fault mean "the step failed" (as opposed to a benign variation)?
@@ -70,7 +76,7 @@ impl FaultKind {
         [
             FaultKind::RpcError, FaultKind::WarningThenOk, FaultKind::NoPositive, FaultKind::NotXml, FaultKind::Truncated,
             FaultKind::WrongMessageId, FaultKind::CloseBefore, FaultKind::CloseAfter, FaultKind::StallThenClose,
-            FaultKind::DelayedRpcError, FaultKind::ErrorThenOk, FaultKind::ErrorWarningThenOk, FaultKind::ForeignError, FaultKind::HoldOk, FaultKind::ErrorReplyThenSecondPositiveReply,
+            FaultKind::DelayedRpcError, FaultKind::ErrorThenOk, FaultKind::ErrorWarningThenOk, FaultKind::ForeignError, FaultKind::HoldOk, FaultKind::ErrorReplyThenSecondPositiveReply, FaultKind::ErrorRootThenPositiveRootSameId, FaultKind::ErrorRootThenPositiveRootOtherId,
         ]
         .into_iter()
         .find(|f| f.name() == s)
@@ -375,6 +381,13 @@ async fn serve(mut s: tokio_rustls::server::TlsStream<tokio::net::TcpStream>, se
                     FaultKind::HoldOk => {
                         late.push(reply(&idv, &ok_body));
                         None
+                    }
+                    FaultKind::ErrorRootThenPositiveRootSameId | FaultKind::ErrorRootThenPositiveRootOtherId => {
+                        let first = reply(&idv, &format!("<load-configuration-results>{RPC_ERROR}<load-error-count>1</load-error-count></load-configuration-results>"));
+                        let mut b = first[..first.len() - MARKER.len()].to_vec();
+                        let other = if *f == FaultKind::ErrorRootThenPositiveRootSameId { idv.clone() } else { "999999".to_string() };
+                        b.extend(reply(&other, &ok_body));
+                        Some(b)
                     }
                     FaultKind::ErrorReplyThenSecondPositiveReply => {
                         let mut b = reply(&idv, &format!("<load-configuration-results>{RPC_ERROR}<load-error-count>1</load-error-count></load-configuration-results>"));
